@@ -76,8 +76,12 @@ def exclusion_for(rng, tree, base_placeholder="@BASE@"):
     pats = []
     for _ in range(rng.randint(1, 2)):
         nme = rng.choice(names)
-        shape = rng.randrange(9)
-        if shape == 8:
+        shape = rng.randrange(10)
+        if shape == 9:
+            # a backslash is a character like any other (it is not a path separator here): `*dir\name*` matches no path of the tree
+            rel = rng.choice([p for p in tree if "/" in p]).split("/")
+            pats.append("*" + "\\".join(rel[-2:]) + rng.choice(["", "*"]))
+        elif shape == 8:
             # the name in another letter case: patterns are matched character by character, so this excludes nothing
             # (unless the tree happens to contain that spelling too)
             pats.append("*" + (nme.upper() if nme != nme.upper() else nme.lower()))
